@@ -5,7 +5,9 @@
    cvsid <plain|mk|plist> <n> line...  -> ok <n> line... | panic        (check_cvsid)
    plist <n> line...                   -> ok <n> line... | panic | fuel (plist_pass)
    gzoffered <line>                    -> 0 | 1                          (gz_offered)
-   usedby <name> <n> line...           -> ok <n> line... | panic        (used_by) *)
+   usedby <name> <n> line...           -> ok <n> line... | panic        (used_by)
+   load <bytes>                        -> <0|1 last line terminated> <n> line...   (load_file)
+   save <0|1> <n> line...              -> bytes                          (save_file) *)
 let out ls = string_of_int (List.length ls) ^ String.concat "" (List.map (fun l -> " " ^ hex_of_bytes l) ls)
 let handle (args : string list) : string =
   match args with
@@ -20,5 +22,8 @@ let handle (args : string list) : string =
   | "gzoffered" :: [l] -> if gz_offered (bytes_of_hex l) then "1" else "0"
   | "usedby" :: name :: _ :: ls ->
     (match used_by (bytes_of_hex name) (List.map bytes_of_hex ls) with Some o -> "ok " ^ out o | None -> "panic")
+  | "load" :: [bs] ->
+    let (ls, t) = load_file (bytes_of_hex bs) in (if t then "1 " else "0 ") ^ out ls
+  | "save" :: t :: _ :: ls -> hex_of_bytes (save_file (List.map bytes_of_hex ls) (t = "1"))
   | _ -> "ERR:bad request"
 let () = serve handle
